@@ -86,6 +86,10 @@ type sched struct {
 	insideSwitch int
 	switches     int
 	rrNext  int
+	maxSteps      int64 // fine-grain runs: scheduler steps after which the clients are released
+	budgetHit     bool
+	gids          []uintptr // goroutine of each client
+	foreignYields int64
 	opsDone []int64 // ops completed per client (free-running stalls wait on the others' progress)
 	stalled int32   // clients currently inside a stalled caller-supplied writer
 	stallViolation string
@@ -205,6 +209,7 @@ func newSched(n int, sc *Schedule, log *EventLog) *sched {
 	s.parked = make([]string, n)
 	s.inLint = make([]bool, n)
 	s.opsDone = make([]int64, n)
+	s.gids = make([]uintptr, n)
 	s.rng = newRNG(sc.Seed)
 	if sc.Strategy == "pct" {
 		s.pct = map[int]bool{}
@@ -320,7 +325,27 @@ func (s *sched) Yield(c int, site string) {
 	if atomic.LoadInt32(&s.free) != 0 {
 		return
 	}
-	atomic.AddInt64(&s.steps, 1)
+	// only the client's own goroutine takes part in the baton protocol: a goroutine the code under test starts
+	// inside a call (nothing forbids it) runs on, unscheduled, next to the client that started it
+	if g := s.gids[c]; g != 0 && getg() != g {
+		atomic.AddInt64(&s.foreignYields, 1)
+		return
+	}
+	if n := atomic.AddInt64(&s.steps, 1); s.maxSteps > 0 && n > s.maxSteps {
+		// bounded work per run: past the step budget the clients run on freely (the equality oracle does not
+		// depend on the schedule; what was interleaved so far stays interleaved)
+		atomic.StoreInt32(&s.free, 1)
+		s.budgetHit = true
+		for k := 0; k < s.n; k++ {
+			if k != c {
+				select {
+				case s.wake[k] <- struct{}{}:
+				default:
+				}
+			}
+		}
+		return
+	}
 	s.yields[c]++
 	s.log.hashOnly(site)
 	to := s.decide(c, site, false)
@@ -1422,6 +1447,7 @@ func runSched(p *Plan, keepLog bool, mode string) *RunResult {
 		wg.Add(1)
 		go func(c int, cs *clientState, view []lint.Registry) {
 			defer wg.Done()
+			s.gids[c] = getg()
 			if !free {
 				<-s.wake[c]
 			} else {
@@ -1443,6 +1469,10 @@ func runSched(p *Plan, keepLog bool, mode string) *RunResult {
 	if !free && strings.HasPrefix(mode, "fg") {
 		if !fineGrainBuild {
 			return &RunResult{Seed: p.Seed, Engine: "sched", Prop: p.Prop, Counters: counters{}, HarnessErr: "fine-grain mode needs the zsim.fg build"}
+		}
+		s.maxSteps = 1500000
+		if p.Tier == "thorough" {
+			s.maxSteps = 4000000
 		}
 		installFineGrain(s)
 		defer uninstallFineGrain()
@@ -1522,7 +1552,13 @@ func runSched(p *Plan, keepLog bool, mode string) *RunResult {
 	for c := 0; c < K; c++ {
 		res.Ops += len(clients[c].out)
 	}
+	if s.budgetHit {
+		res.Counters.inc("step_budget_reached_clients_released")
+	}
 	res.Counters.add("yields", int(s.steps))
+	if n := atomic.LoadInt64(&s.foreignYields); n > 0 {
+		res.Counters.add("yield_sites_passed_by_goroutines_of_the_code_under_test", int(n))
+	}
 	res.Counters.add("preempt_switches", s.switches)
 	res.Counters.add("preempt_inside_lint_of_both", s.insideSwitch)
 	res.Counters.inc("strategy_" + sc.Strategy)
@@ -1684,4 +1720,19 @@ func diffAgainstTwin(p *Plan, clients []*clientState, mode string) []Violation {
 		out = append(out, Violation{Property: "C10", Class: "result_mismatch", Detail: "concurrent results differ from the serial twin"})
 	}
 	return out
+}
+
+// goid: the number of the calling goroutine (from the header of its stack trace).
+func goid() uint64 {
+	var buf [40]byte
+	n := runtime.Stack(buf[:], false)
+	// "goroutine 123 ["
+	var id uint64
+	for _, ch := range buf[10:n] {
+		if ch < '0' || ch > '9' {
+			break
+		}
+		id = id*10 + uint64(ch-'0')
+	}
+	return id
 }
